@@ -577,14 +577,16 @@ func AppendBinaryValue(data []byte, fieldType uint8, value interface{}) ([]byte,
 				t = AppendUint32(t, microseconds)
 			}
 		case TypeDate:
-			// format: 2006-01-02
-			ts, err := time.Parse("2006-01-02", v)
-			if err != nil {
+			// format: 2006-01-02; MySQL allows a zero month / day ('2021-00-00'), which time.Parse rejects
+			var y, m, d int
+			n, err := fmt.Sscanf(v, "%4d-%2d-%2d", &y, &m, &d)
+			if err != nil || n != 3 || len(v) != 10 || (y == 0 && m == 0 && d == 0) {
+				// unparsable text stays the zero date, as before
 				t = append(t, 0)
 			} else {
 				t = append(t, 4)
-				t = AppendUint16(t, uint16(ts.Year()))
-				t = append(t, byte(int(ts.Month())), byte(ts.Day()))
+				t = AppendUint16(t, uint16(y))
+				t = append(t, byte(m), byte(d))
 			}
 		case TypeDuration:
 			timeValue, err := stringToMysqlTime(v)
@@ -626,11 +628,11 @@ func AppendBinaryValue(data []byte, fieldType uint8, value interface{}) ([]byte,
 		}
 		data = append(data, t[:8]...)
 		return data, nil
-	case TypeNewDecimal, TypeJSON, TypeString, TypeVarString, TypeVarchar, TypeBit, TypeTinyBlob, TypeMediumBlob, TypeLongBlob, TypeBlob:
+	case TypeNewDecimal, TypeJSON, TypeString, TypeVarString, TypeVarchar, TypeBit, TypeTinyBlob, TypeMediumBlob, TypeLongBlob, TypeBlob, TypeEnum, TypeSet:
 		tmp := make([]byte, 0, len(t)+9)
 		data = append(data, AppendLenEncStringBytes(tmp, t)...)
 		return data, nil
-	case TypeEnum, TypeSet, TypeDate, TypeDatetime, TypeDuration, TypeTimestamp, TypeNewDate:
+	case TypeDate, TypeDatetime, TypeDuration, TypeTimestamp, TypeNewDate:
 		data = append(data, t...)
 		return data, nil
 	default:
